@@ -1,9 +1,9 @@
 CONSTANTS
   NG = 1
   Sizes = {1, 2}
-  ResKinds = {"ok", "exc", "none"}
+  ResKinds = {"ok", "exc"}
   Copies = 1
-  FitsCov = {1, 1000001}
+  FitsCov = {1000001}
   FitsMio = {1}
   FitsPop = {1}
   MaxLenCov = 2
